@@ -542,6 +542,11 @@ def gen_cases(rng, tier, ctx):
     for c in rws:
         cases.append(dict(c, side='corr'))
         cases.append(dict(c, side='spec'))
+    ems = X.enum_merge(e_c)
+    if tier != 'thorough':
+        rng.shuffle(ems)
+        ems = ems[:40]
+    cases.extend(ems)
     if tier == 'thorough':
         cases.extend(_enum_small())
         cases.extend(_enum_loops())
@@ -692,9 +697,18 @@ def run_impl(case):
                 obs = {'dur': vlib.frac_json(prog.duration), 'ws': _windows(prog)}
                 # second observation point of the property: plotting.render(..., render_measurements=True)[2]
                 from qupulse.plotting import _render_loop
-                rm = [[n, vlib.frac_json(vlib.to_fraction(b)), vlib.frac_json(vlib.to_fraction(l))]
-                      for n, b, l in _render_loop(prog, render_measurements=True)[1]]
-                obs['wsr'] = sorted(rm, key=lambda w: (str(w[0]), F(w[1]), F(w[2])))
+                try:
+                    rendered = _render_loop(prog, render_measurements=True)[1]
+                except ValueError as e:
+                    # _render_loop first turns the program into ONE waveform; that fails for programs whose leaves
+                    # define different channel sets (generated atomic composites over a channel subset).  Waveform
+                    # construction is not this property's business: this observation path is skipped for the case.
+                    rendered = None
+                    obs['wsr_skipped'] = str(e)[:80]
+                if rendered is not None:
+                    rm = [[n, vlib.frac_json(vlib.to_fraction(b)), vlib.frac_json(vlib.to_fraction(l))]
+                          for n, b, l in rendered]
+                    obs['wsr'] = sorted(rm, key=lambda w: (str(w[0]), F(w[1]), F(w[2])))
                 # ... and through the public entry point (needs a sample rate the duration is a multiple of)
                 from qupulse.plotting import render
                 if prog.duration > 0 and (prog.duration * 16).denominator == 1 and prog.duration <= 64:
@@ -890,6 +904,8 @@ def histogram_keys(case, obs):
     keys = [case['kind'], 'obs:' + ('rejected:' + obs['rejected'] if 'rejected' in obs else
                                     'none' if obs.get('none') else
                                     'crash' if 'crash' in obs or 'hang' in obs else 'program')]
+    if 'wsr_skipped' in obs:
+        keys.append('render-path-skipped (leaves with different channel sets)')
     if 'trace_unavailable' in obs:
         keys.append('trace:UNAVAILABLE (builder internals differ from the instrumentation)')
     if kind == 'trace' and 'trace' in obs:
